@@ -882,10 +882,27 @@ def pause_witness_search(ck, prog, eng, layer, why):
 
 
 def check_pause(ck, prog, eng, layer):
+    n_ob, n_vi, n_ff = len(ck.obligations), len(ck.violations), len(ck.floor_failures)
     try:
-        return check_pause_structural(ck, prog, eng, layer)
+        r = check_pause_structural(ck, prog, eng, layer)
     except AnalysisError as exc:
-        pause_witness_search(ck, prog, eng, layer, str(exc))
+        return pause_witness_search(ck, prog, eng, layer, str(exc))
+    if len(ck.violations) == n_vi and len(ck.floor_failures) == n_ff:
+        return r
+    # the structural rules read ONE chunking loop; code of another shape (whole chunks in a loop
+    # and the remainder after it, ...) fails them without being wrong.  Their reports stand only
+    # if a concrete pause time confirms them: the witness search interprets the helper for about
+    # 1500 pause times with every loop unrolled exactly.
+    rules = sorted({v['rule'] for v in ck.violations[n_vi:]}) or ['floor']
+    try:
+        # reports a counterexample (the structural reports then stand as well) or raises
+        pause_witness_search(ck, prog, eng, layer, 'the loop rules report %s' % ', '.join(rules))
+    except AnalysisError:
+        del ck.obligations[n_ob:]
+        del ck.violations[n_vi:]
+        del ck.floor_failures[n_ff:]
+        raise
+    return r
 
 
 def check_pause_structural(ck, prog, eng, layer):
